@@ -217,6 +217,13 @@ func (t *T) Class(name string) { t.classes[name] = true }
 // HasClass reports whether the case was labelled.
 func (t *T) HasClass(name string) bool { return t.classes[name] }
 
+// Count adds to a free-form per-process counter reported in the evidence.
+func (t *T) Count(name string, n int) {
+	if !t.quiet {
+		t.st.Count(name, n)
+	}
+}
+
 // NonTrivial marks the case as non-trivial by the property's stated rule.
 func (t *T) NonTrivial() { t.nontriv = true }
 
